@@ -1,6 +1,6 @@
 (* C07 — lemmas and invariants about Circuit/Model.v *)
 From stdpp Require Import gmap.
-From LV Require Import Circuit.Model.
+From LV Require Import Circuit.Model Circuit.Spec.
 Local Open Scope N_scope.
 
 (* ------------------------------------------------------------------ *)
@@ -432,11 +432,7 @@ Proof.
     + destruct (commit_mem m r) as [m' cr1] eqn:E. simplify_eq. exact (IH _ _ _ E).
 Qed.
 
-(* well-formedness needed by DeleteCircuits' rollback: a pending circuit that
-   claims an outgoing key is the circuit opened under that key *)
-Definition wf_out (m : mem) : Prop :=
-  forall k id o ok, pending m !! k = Some id -> get_obj m id = Some o -> o_out o = Some ok ->
-    opened m !! ok = Some id /\ o_inc o = k.
+(* wf_out (Spec.v): well-formedness needed by DeleteCircuits' rollback *)
 
 Lemma get_obj_frame m m' id :
   heapN m' = heapN m -> heapD m' = heapD m -> get_obj m' id = get_obj m id.
